@@ -296,7 +296,12 @@ func exploreConc(cs *ConcScenario, bound int, deadline time.Time) *c08res {
 		final := co.app.MultisetCanonical()
 		r.Finals[fmt.Sprint(mc.HashStr(final))]++
 		r.Ordered[fmt.Sprint(mc.HashStr(co.app.Canonical()))]++
-		if _, ok := ref[final]; !ok {
+		if _, ok := ref[final]; !ok && len(entryDiff(final, ref)) == 0 {
+			// every entry (collection / object / box) holds what SOME sequential order gives it, but
+			// no single order explains all of them: requests updating two entries in opposite order.
+			// The statement speaks of each collection; atomicity across entries is not promised.
+			r.Finals["<per-entry-only>"]++
+		} else if !ok {
 			r.Viols = append(r.Viols, Violation{Key: "lost-update|" + diffKey(final, ref),
 				What: fmt.Sprintf("scenario %s: final collections equal no sequential execution of the same requests; schedule %v; differing entries: %s",
 					cs.Name, co.sched.Trace, diffDetail(final, ref)), Replay: rep()})
@@ -313,6 +318,43 @@ func exploreConc(cs *ConcScenario, bound int, deadline time.Time) *c08res {
 	r.Execs, r.States, r.Transitions, r.Pruned, r.Exhaustive = e.Execs, len(e.States), e.Transitions, e.Pruned, e.Exhaustive
 	r.Wall = time.Since(t0).Seconds()
 	return r
+}
+
+// entryDiff returns the lines (entries) of the final state that no sequential reference has, and the
+// ids every reference has but the final state lacks.
+func entryDiff(final string, ref map[string][]int) []string {
+	any := map[string]bool{}
+	idCount := map[string]int{}
+	lineID := func(l string) string {
+		f := strings.SplitN(l, " = ", 2)
+		return f[0]
+	}
+	for r := range ref {
+		for _, l := range strings.Split(r, "\n") {
+			if l == "" {
+				continue
+			}
+			any[l] = true
+			idCount[lineID(l)]++
+		}
+	}
+	var bad []string
+	have := map[string]bool{}
+	for _, l := range strings.Split(final, "\n") {
+		if l == "" {
+			continue
+		}
+		have[lineID(l)] = true
+		if !any[l] {
+			bad = append(bad, l)
+		}
+	}
+	for id, n := range idCount {
+		if n == len(ref) && !have[id] {
+			bad = append(bad, "missing "+id)
+		}
+	}
+	return bad
 }
 
 func uniq(s []string) []string {
@@ -417,6 +459,10 @@ func C08(tier string) int {
 	}
 	// every pair of request kinds (a kind also with itself), two threads, unbounded
 	for _, cs := range PairCorpus() {
+		jobs = append(jobs, job{cs, -1})
+	}
+	// the same two local values named in opposite order by two requests of one kind
+	for _, cs := range OrderCorpus() {
 		jobs = append(jobs, job{cs, -1})
 	}
 	// thorough: every triple of state-changing request kinds, preemption bound 2
@@ -544,7 +590,7 @@ func C08Worker(args []string) int {
 	var bound, secs int
 	fmt.Sscan(args[1], &bound)
 	fmt.Sscan(args[2], &secs)
-	for _, cs := range append(append(ConcCorpus(true), PairCorpus()...), TripleCorpus()...) {
+	for _, cs := range append(append(append(ConcCorpus(true), PairCorpus()...), OrderCorpus()...), TripleCorpus()...) {
 		if cs.Name == args[0] {
 			o := exploreConc(cs, bound, time.Now().Add(time.Duration(secs)*time.Second))
 			json.NewEncoder(os.Stdout).Encode(o)
